@@ -78,11 +78,30 @@ fn gauges_part(rep: &mut Report, thorough: bool) -> (u64, u64, Vec<Value>) {
         }
         nows.sort();
         nows.dedup();
-        for now in nows {
+        for (ni, now) in nows.into_iter().enumerate() {
             n += 1;
             clock::set_secs(now as u64);
-            let case = json!({"engine":"c20","part":"gauges","rows": state_json(st), "now_rel": now - NOW0});
-            match rig.get(Via::V6, "/metrics") {
+            // the first scrape after every change of the store is a contended one: the harness holds
+            // the lease store's mutex, as a packet handler in the middle of a request does, while
+            // the scrape is in flight and releases it 40 rounds later.  The values served must be
+            // those of the store as it is, not those of the previous scrape.
+            let contended = ni == 0;
+            let case = json!({"engine":"c20","part":"gauges","rows": state_json(st), "now_rel": now - NOW0, "store_mutex_held_during_scrape": contended});
+            let r = if contended {
+                let m = rig.dhcp.verif_pool();
+                let mut guard = m.try_lock_owned().ok();
+                if guard.is_none() {
+                    rep.machinery_error("could not take the lease store mutex");
+                }
+                rig.get_hooked(Via::V6, "/metrics", &mut |round| {
+                    if round == 40 {
+                        guard.take();
+                    }
+                })
+            } else {
+                rig.get(Via::V6, "/metrics")
+            };
+            match r {
                 Err(e) => {
                     rep.violation(Violation::new("metrics-unavailable", format!("GET /metrics failed: {e}"), case));
                     break;
@@ -305,7 +324,7 @@ pub fn run(tier: &str, replay: Option<Value>) -> ! {
     rep.cov("traces_validated_against_impl", n1 + n2);
     rep.cov("evaluations", n1 + n2);
     rep.cov("distinct_nontrivial", c1 + c2);
-    rep.cov("rule", "gauges: every lease store reachable by the exact-state search over handle_pkt (depth 3, thorough 4; plus the empty store after non-empty ones) x now in {each row's expiry -1, +0, +1}, read through GET /metrics of the real HTTP API on the real DhcpService; listing: one real DISCOVER per value of host-name option (every single octet, every octet between two letters, every pair of a 40-octet dangerous set -- thorough: every two-octet name and every triple of the dangerous set --, lengths 0/1/255, UTF-8 specials) and client identifier (every octet, empty, 255 octets), listing parsed by serde_json and compared entry by entry with the rows. states = distinct (row count, future count) / validity classes; transitions = gauge readings + leases listed");
+    rep.cov("rule", "gauges: every lease store reachable by the exact-state search over handle_pkt (depth 3, thorough 4; plus the empty store after non-empty ones) x now in {each row's expiry -1, +0, +1}, read through GET /metrics of the real HTTP API on the real DhcpService, the first scrape after every store change with the lease store mutex held by the harness while the request is in flight; listing: one real DISCOVER per value of host-name option (every single octet, every octet between two letters, every pair of a 40-octet dangerous set -- thorough: every two-octet name and every triple of the dangerous set --, lengths 0/1/255, UTF-8 specials) and client identifier (every octet, empty, 255 octets), listing parsed by serde_json and compared entry by entry with the rows. states = distinct (row count, future count) / validity classes; transitions = gauge readings + leases listed");
     rep.cov("exhaustive", true);
     rep.cov("parts", json!({"gauge_readings": n1, "leases_listed": n2}));
     rep.cov("samples", s1);
